@@ -23,13 +23,22 @@
                     C05_add_inits_to_inputs_preserves, C05_remove_inits_from_inputs_preserves, C05_add_default_attributes_preserves,
                     C05_reorder_preserves
                     (TopologicalSort as the relation checked on the implementation's result; exact order = C12)
-     composition    C05_sequence: any sequence of the eleven passes above refines the model w.r.t. the non-initializer
-                    inputs, keeps them (identities and order), keeps the number of outputs and WF/NoOpFunc; each
-                    pass's own side condition (fresh counter above all identities, locality of outputs, ...) is required
-                    at the point where it runs.
-   Not proved in Coq (structural correspondence + execution oracle only): InlinePass (oracle only),
-   RemoveUnusedFunctionsPass (modelled and compared), NameFix / ClearMetadata / ShapeInference / RemoveUnusedOpsets
-   (the semantics does not mention names, metadata, shapes, opset imports: frame-checked: term before = term after). *)
+     more passes    C05_remove_unused_functions_preserves (Proofs14/16), C05_inline_simulation (one inlining step: the
+                    environment-changing simulation of Proofs15 instantiated through the executable certificate
+                    InlineCert.inline_certb), C05_inline_preserves (the whole InlinePass: calls in the main graph and its
+                    subgraphs, nested calls, attribute parameters and defaults, omitted arguments, pass-through outputs,
+                    rewriting/deleting the then-dead functions: Proofs17/18), C05_frame_passes_preserve (NameFix,
+                    ClearMetadataAndDocString, ShapeInference, RemoveUnusedOpsets: the term is unchanged; names, metadata,
+                    value_info, opset table are an annotation `computes` does not read).
+                    RemoveUnusedFunctions and Inline are stated for the CHECKED models (remove_unused_funcs_checked,
+                    inline_pass_c): the implementation's rewrite guarded by an executable certificate that is proved sound;
+                    where a certificate does not hold the checked model keeps the model unchanged, which the structural
+                    correspondence (run on every check) would report as a mismatch with the implementation.
+     composition    C05_sequence: any sequence of the thirteen modelled passes (InlinePass and RemoveUnusedFunctionsPass
+                    included) refines the model w.r.t. the non-initializer inputs, keeps them (identities and order), keeps
+                    the number of outputs and WF/NoOpFunc; each pass's own side condition (fresh counter above all
+                    identities, locality of outputs, ...) is required at the point where it runs.
+   Excluded (known finding, refuted in Coq): RemoveUnusedNodes on BatchNormalization with training_mode=1. *)
 From Coq Require Import ZArith NArith List Bool Lia.
 From IRV Require Import Base.Exn Gen.C05Gen C05.Model C05.Proofs C05.Proofs2 C05.Proofs3 C05.Proofs4 C05.Proofs5 C05.Proofs6
      C05.Proofs7 C05.Proofs8 C05.Proofs9 C05.Proofs10 C05.Proofs11 C05.Proofs12 C05.Proofs13 C05.Proofs14 C05.Proofs15
